@@ -501,6 +501,10 @@ func TestC01(t *testing.T) {
 			case src < 6:
 				o := gen.DefaultStreamOpts()
 				o.OddStrings = true
+				if d.Int(0, 7, "localtimes") == 0 {
+					gen.LocalTimeOpts(d, &o)
+					rec.Class("local-time stream", 1)
+				}
 				s, _ := gen.GenStream(d, o)
 				if d.Chance(80, "specmut") {
 					s = gen.MutateSpec(d, s)
